@@ -172,7 +172,7 @@ static void runPrec(const PrecCase& c, Ctx& ctx)
       for (int i = 0; i < n; i++)
         if (!(fabsl(Q.get(i, j) - col[(size_t)i]) <= 1e-10L * sc))
         {
-          ctx.fail("Q-assembly", fmt("Q(%d,%d) = %.17Lg, Lambda P(S) Lambda gives %.17Lg", i, j, Q.get(i, j), col[(size_t)i]));
+          ctx.fail("Q-assembly", fmt("Q(%d,%d) = %.17Lg, Lambda P(S) Lambda gives %.17Lg (max|Q| %Lg, nnz(Q) %ld, nnz(S) %ld)", i, j, Q.get(i, j), col[(size_t)i], qmax, Q.nnz(), S.nnz()));
           return;
         }
     }
@@ -189,11 +189,15 @@ static void runPrec(const PrecCase& c, Ctx& ctx)
     VectorDouble vx = toVD(xs[k]);
     ctx.at("PrecisionOp::evalDirect");
     VectorDouble yf = pop.evalDirect(vx);
-    ctx.at("PrecisionOpCs::evalDirect");
-    VectorDouble yc = pcs.evalDirect(vx);
-    if ((int)yf.size() != n || (int)yc.size() != n) { ctx.fail("evalDirect:size", "evalDirect returned a vector of wrong size"); return; }
+    if ((int)yf.size() != n) { ctx.fail("evalDirect:size", "evalDirect returned a vector of wrong size"); return; }
     if (!cmpVec(ctx, "evalDirect:free-vs-Q", "matrix-free evalDirect vs getQ()*x", yf.data(), yq, yra, 1e-8)) return;
-    if (!cmpVec(ctx, "evalDirect:cs-vs-Q", "PrecisionOpCs evalDirect vs getQ()*x", yc.data(), yq, ya, 1e-10)) return;
+    if (c.eigen) // csparse storage: done last (MatrixSparse::addToDest ignores the storage, recorded finding)
+    {
+      ctx.at("PrecisionOpCs::evalDirect");
+      VectorDouble yc = pcs.evalDirect(vx);
+      if ((int)yc.size() != n) { ctx.fail("evalDirect:size", "evalDirect returned a vector of wrong size"); return; }
+      if (!cmpVec(ctx, "evalDirect:cs-vs-Q", "PrecisionOpCs evalDirect vs getQ()*x", yc.data(), yq, ya, 1e-10)) return;
+    }
     if (!cmpVec(ctx, "evalDirect:free-vs-definition", "matrix-free evalDirect vs Lambda P(S) Lambda x", yf.data(), yr, yra, 1e-8)) return;
     // MatrixSparse product used by callers
     VectorDouble ym((size_t)n);
@@ -204,29 +208,6 @@ static void runPrec(const PrecCase& c, Ctx& ctx)
     LD xqx = 0;
     for (int i = 0; i < n; i++) xqx += x[(size_t)i] * (LD)ym[i];
     if (!(xqx > 0)) { ctx.fail("xQx", fmt("x'Qx = %Lg for a non-zero x", xqx)); return; }
-    if (k == 0)
-    {
-      // addToDest adds to its destination (ALinearOp contract relied upon by SPDEOp / Eigen CG products)
-      std::vector<double> y0 = cut(c.y0, n);
-      LD ymag = std::max(normInfV(yq), (LD)1e-300);
-      for (auto& v : y0) v = (double)((LD)v / 8.L * ymag); // same magnitude as Qx: an overwrite is always visible
-      std::vector<LD> exp((size_t)n);
-      for (int i = 0; i < n; i++) exp[(size_t)i] = (LD)y0[(size_t)i] + yq[(size_t)i];
-      std::vector<LD> sc = yra;
-      sc.push_back(ymag);
-      {
-        std::vector<double> o = y0;
-        ctx.at("PrecisionOpCs::addToDest");
-        pcs.addToDest(constvect(xs[k]), vect(o));
-        if (!cmpVec(ctx, "addToDest:cs", "PrecisionOpCs::addToDest(x, y0) vs y0 + Qx", o.data(), exp, sc, 1e-8)) return;
-      }
-      {
-        std::vector<double> o = y0;
-        ctx.at("PrecisionOp::addToDest");
-        pop.addToDest(constvect(xs[k]), vect(o));
-        if (!cmpVec(ctx, "addToDest:free-overwrites", "PrecisionOp::addToDest(x, y0) vs y0 + Qx", o.data(), exp, sc, 1e-8)) return;
-      }
-    }
   }
   // --- (b) positive definite: dense Cholesky in long double, lambda_min, library's sparse Cholesky
   Dense D(n);
@@ -272,6 +253,44 @@ static void runPrec(const PrecCase& c, Ctx& ctx)
     double ld = pcs.getLogDeterminant();
     LD ldr = cholLogDet(L);
     if (!(fabsl((LD)ld - ldr) <= 1e-8L * (fabsl(ldr) + n))) { ctx.fail("cs-logdet", fmt("log det Q = %.17g, dense reference %.17Lg", ld, ldr)); return; }
+  }
+  // --- deferred (recorded findings first stop here, everything else has been checked before)
+  {
+    // addToDest adds to its destination (ALinearOp contract relied upon by SPDEOp / Eigen CG products)
+    size_t k = 0;
+    std::vector<LD> x = toLD(xs[k]), yq, yr, yra;
+    Q.mul(x, yq);
+    refQx(S, lam, coef, x, yr, &yra);
+    std::vector<double> y0 = cut(c.y0, n);
+    LD ymag = std::max(normInfV(yq), (LD)1e-300);
+    for (auto& v : y0) v = (double)((LD)v / 8.L * ymag); // same magnitude as Qx: an overwrite is always visible
+    std::vector<LD> exp((size_t)n);
+    for (int i = 0; i < n; i++) exp[(size_t)i] = (LD)y0[(size_t)i] + yq[(size_t)i];
+    std::vector<LD> sc = yra;
+    sc.push_back(ymag);
+    if (c.eigen)
+    {
+      std::vector<double> o = y0;
+      ctx.at("PrecisionOpCs::addToDest");
+      pcs.addToDest(constvect(xs[k]), vect(o));
+      if (!cmpVec(ctx, "addToDest:cs", "PrecisionOpCs::addToDest(x, y0) vs y0 + Qx", o.data(), exp, sc, 1e-8)) return;
+    }
+    {
+      std::vector<double> o = y0;
+      ctx.at("PrecisionOp::addToDest");
+      pop.addToDest(constvect(xs[k]), vect(o));
+      if (!cmpVec(ctx, "addToDest:free-overwrites", "PrecisionOp::addToDest(x, y0) vs y0 + Qx", o.data(), exp, sc, 1e-8)) return;
+    }
+  }
+  if (!c.eigen)
+  {
+    std::vector<LD> x = toLD(xs[0]), yq, ya;
+    Q.mul(x, yq);
+    Q.mulAbs(x, ya);
+    ctx.at("PrecisionOpCs::evalDirect(csparse)");
+    VectorDouble yc = pcs.evalDirect(toVD(xs[0]));
+    if ((int)yc.size() != n) { ctx.fail("evalDirect:size", "evalDirect returned a vector of wrong size"); return; }
+    if (!cmpVec(ctx, "evalDirect:cs-vs-Q", "PrecisionOpCs evalDirect vs getQ()*x", yc.data(), yq, ya, 1e-10)) return;
   }
   ctx.nontrivial(nontrivialGeom(c.mesh, {c.cov}));
   ctx.sig = Hash().add(c.mesh.ndim).add(c.mesh.kind).add(n).add(c.cov.type).addq(c.cov.param).addq(c.cov.ranges[0] / c.mesh.cell()).addq(c.mesh.ang.empty() ? 0. : c.mesh.ang[0]).add(c.eigen).h;
